@@ -569,7 +569,38 @@ class MirModule:
         self.funcs = {}        # name -> Func
         self.by_short = {}     # last path segment -> [Func]
         self.allocs = {}
+        self._static_index = None
         self._index()
+
+    def static_literal(self, alloc, fn_name):
+        """the string literal a `static NAME: &str = "..."` holds, for the static behind `allocN` as referenced from function fn_name; None if not resolvable"""
+        import re as _re
+        if self._static_index is None:
+            allocs, statics = {}, {}
+            for i, line in enumerate(self.lines):
+                if line.startswith('alloc'):
+                    m = _re.match(r'^(alloc\d+) \(static: (.*?), size', line)
+                    if m:
+                        allocs[m.group(1)] = m.group(2)
+                elif line.startswith('static '):
+                    m = _re.match(r'^static (?:mut )?(.*): &(?:\'static )?str = \{$', line)
+                    if m:
+                        for j in range(i + 1, min(i + 12, len(self.lines))):
+                            mm = _re.match(r'^\s*_0 = const (".*");$', self.lines[j])
+                            if mm:
+                                statics[m.group(1)] = mm.group(1)
+                                break
+            self._static_index = (allocs, statics)
+        allocs, statics = self._static_index
+        path = allocs.get(alloc)
+        if path is None:
+            return None
+        name = path.rsplit('::', 1)[-1]
+        local = statics.get(fn_name + '::' + name)
+        if local is not None:
+            return local
+        cands = set(v for k, v in statics.items() if k.endswith('::' + name) or k == name)
+        return cands.pop() if len(cands) == 1 else None
 
     def _index(self):
         lines = self.lines
